@@ -52,6 +52,39 @@ def _cancel_is_final(ctx: Ctx, ev: Evidence) -> list[Finding]:
     return out
 
 
+def _eof_condition_consulted(ctx: Ctx, ev: Evidence) -> list[Finding]:
+    """C12-R5: an EOF (cancel) can only be honoured by code that looks at the EOF's condition code. On every ATS edge that
+    accepts (acknowledges or completes on) an EOF PDU the interpreter must have branched on pkt.condition_code; an entry path
+    that never reads it treats EOF (cancel) exactly like EOF (no error)."""
+    ev.rule("C12-R5", "receiver: every path that accepts an EOF PDU consults the EOF's condition code", 2)
+    out: list[Finding] = []
+    a = ctx.ats("dest")
+    groups: dict[str, dict] = {}
+    for e in a.edges:
+        if e.label != ("state_machine", "EOF") or e.exc is not None:
+            continue
+        stores = [x for x in e.ev if x.kind == "store" and x.name.endswith(".file_size_eof")]
+        if not stores:
+            continue  # the EOF was not taken up on this edge
+        entry = stores[0].func.split(".")[-1]
+        g = groups.setdefault(entry, {"ok": 0, "bad": 0, "edge": None, "site": stores[0].site})
+        if any(k == ("pkt", "condition_code") for k, _ in e.ch):
+            g["ok"] += 1
+        else:
+            g["bad"] += 1
+            g["edge"] = g["edge"] or e
+    if not groups:
+        from ..model import AnalysisError
+        raise AnalysisError("no EOF-accepting edge found in the destination ATS")
+    for entry, g in sorted(groups.items()):
+        ok = g["bad"] == 0
+        ev.inst("C12-R5", f"dest handler | EOF taken up in {entry}: condition code consulted on {g['ok']} edges, never read on {g['bad']}", "ok" if ok else "violation", g["site"])
+        if not ok:
+            out.append(Finding("C12-R5", f"dest handler | EOF accepted without consulting its condition code | {entry}",
+                               f"{entry} records and acknowledges an EOF PDU without ever reading its condition code: an EOF (cancel) on this path is treated as a regular end of file", g["site"], witness_of(a, g["edge"])))
+    return out
+
+
 def check(ctx: Ctx, ev: Evidence) -> list[Finding]:
     out: list[Finding] = []
     ev.rule("C12-R1", "cancel_request return table (idle / foreign id / own id) and absence of cross-enum comparisons", 6)
@@ -222,5 +255,6 @@ def check(ctx: Ctx, ev: Evidence) -> list[Finding]:
                             if not same:
                                 out.append(Finding("C12-R3", "dest handler | cancelled completion | Finished PDU differs from the indication", "the Finished PDU of a cancelled transaction carries another condition/fault location than the indication", fin[0].site, witness_of(a, e)))
     out += _cancel_is_final(ctx, ev)
+    out += _eof_condition_consulted(ctx, ev)
     ev.extra["explanation"] = "every cancel_request edge (state x id match) and every EOF(cancel)/cancelled-completion edge of both handlers' abstract transition systems; forward reachability after a successful sender cancel"
     return out
